@@ -32,6 +32,8 @@ PLAN = {
     "C13f": "C13 C10", "C15f": "C15", "C17f": "C17", "C18f": "C18", "C19f": "C19", "C20f": "C20",
     "C01g": "C01", "C06g": "C06 C02", "C08g": "C08", "C11g": "C11", "C14g": "C14", "C16g": "C16 C10",
     "C01f": "C01", "C11f": "C11 C08", "C02f": "C02 C04", "C03f": "C03 C01", "C04f": "C04", "C05f": "C05", "C07g": "C07 C14", "C09f": "C09 C08", "C12f": "C12",
+    "C01h": "C01", "C03h": "C03", "C04h": "C04", "C05h": "C05", "C06h": "C06", "C07h": "C07", "C08h": "C08", "C09h": "C09 C07", "C10h": "C10",
+    "C11h": "C11 C08", "C14h": "C14", "C15h": "C15 C09", "C16h": "C16", "C18h": "C18",
     "C01e": "C01", "C06e": "C06", "C07e": "C07 C11", "C10e": "C10", "C14e": "C14", "C16e": "C16",
 }
 
